@@ -469,6 +469,10 @@ fn gen_history(rng: &mut Rng, o: &GenOpts) -> Vec<Op> {
         if len >= 2 && rng.below(100) < o.adjacent_pct {
             let l1 = 1 + rng.below(len as u64 - 1) as usize;
             ops.push(Op::TrySet(start, l1));
+            if o.noise && rng.chance(1, 3) {
+                // between two adjacent pieces: set_len with exactly the current length (documented: no effect)
+                ops.push(Op::SetLen(start + l1));
+            }
             if len - l1 >= 2 && rng.chance(1, 3) {
                 ops.push(Op::TrySet(start + l1, 1));
                 ops.push(Op::TrySet(start + l1 + 1, len - l1 - 1));
